@@ -4,6 +4,7 @@
 // c*n*eps*kappa_inf(A); non-cyclic additionally componentwise backward error <= c*n*eps;
 // repeated solves with the same rhs bitwise identical; later rhs as accurate as the first.
 #pragma once
+#include <omp.h>
 #include "dense.h"
 #include "engine.h"
 #include "LinearAlgebra/symmetricTridiagonalSolver.h"
@@ -113,6 +114,27 @@ inline Outcome runTridiagCase(const KV& c)
             return o;
         }
     }
+    else if (n > 4000 && cls == "dom") {
+        // strictly diagonally dominant: ||A^-1||_inf <= 1 / min_i (|a_ii| - sum_j |a_ij|)  (Varah), O(n) and rigorous;
+        // an upper bound on kappa only widens the forward bound below, which mutants miss by many orders anyway
+        LD gap = 1e300L;
+        for (int i = 0; i < n; i++) {
+            LD off = 0;
+            if (i > 0)
+                off += fabsl((LD)sub[i - 1]);
+            if (i + 1 < n)
+                off += fabsl((LD)sub[i]);
+            if (cyclic && (i == 0 || i == n - 1))
+                off += fabsl((LD)corner);
+            gap = std::min(gap, fabsl((LD)mainD[i]) - off);
+        }
+        if (!(gap > 0)) {
+            o.cls("discarded_not_spd");
+            return o;
+        }
+        kappa = normA / gap;
+        o.cls("kappa_varah_bound");
+    }
     else
         kappa = normA * tri.invNormInf();
     auto Aij = [&](int i, int j) -> LD {
@@ -153,6 +175,12 @@ inline Outcome runTridiagCase(const KV& c)
     // The solver lives in a std::vector, as the smoothers keep their line solvers; `relocate` = 1 grows that vector after
     // the first solve (the object is move-constructed to a new address), 2 replaces it by a copy of itself: "every time"
     // includes the solves after the container holding the solver has reallocated.
+    const int threads = (int)c.getI("threads", 1);
+    omp_set_num_threads(std::max(1, threads));
+    if (threads > 1)
+        o.cls("several_threads_available");
+    if (n > 10000)
+        o.cls("n_gt_10000");
     const int relocate = (int)c.getI("relocate", 0);
     if (relocate)
         o.cls(relocate == 1 ? "relocated_by_move" : "relocated_by_copy");
@@ -274,7 +302,8 @@ inline KV genTridiagCase()
     KV c;
     // dimension: n = 2, 3 weighted up; occasionally large
     int n;
-    switch (rweighted({12, 12, 32, 16, 1})) {
+    int threads = 1;
+    switch (rweighted({24, 24, 64, 32, 2, 1})) {
     case 0:
         n = 2;
         break;
@@ -287,18 +316,28 @@ inline KV genTridiagCase()
     case 3:
         n = rint(25, 200);
         break;
-    default:
+    case 4:
     {
         const char* t = getenv("VERIF_TIER");
         n             = (t && std::string(t) == "thorough") ? rpick({1000, 1000, 2048, 2048, 2048, 10000}) : rpick({300, 1000});
     }
+        break;
+    default:
+        // above the size at which this code base switches its kernels to OpenMP (n > 10'000), called from serial code
+        // with several threads available: "every system ... every time" has no size or thread-count exemption
+        n       = rpick({10001, 12007, 20000});
+        threads = rpick({2, 3, 4});
         break;
     }
     const bool cyclic = rbool();
     // construction class
     //  dom: strictly diagonally dominant; ldl: L D L^T (non cyclic); ctc: C^T C with cyclic bidiagonal C
     int k = cyclic ? rweighted({3, 0, 3}) : rweighted({3, 3, 1});
-    const bool scaled = rint(0, 2) == 0;
+    bool scaled = rint(0, 2) == 0;
+    if (n > 4000 && threads > 1) {
+        k      = 0; // diagonally dominant, unscaled: the condition number has a rigorous O(n) bound
+        scaled = false;
+    }
     std::vector<double> mainD(n), sub(n - 1);
     double corner = 0.0;
     std::string cls;
@@ -370,6 +409,7 @@ inline KV genTridiagCase()
         corner *= s[0] * s[n - 1];
     }
     c.putI("n", n);
+    c.putI("threads", threads);
     c.putI("cyclic", cyclic);
     c.putS("cls", cls);
     c.putVD("main", mainD);
